@@ -479,6 +479,12 @@ func (e *c06Env) scenario(kind string) error {
 		reimport := e.rs.Bool()
 		var bFile string
 		if reimport {
+			// two addresses nobody pays: only the address book knows them
+			for i := 0; i < 2; i++ {
+				if err := e.newAddress("b"); err != nil {
+					return err
+				}
+			}
 			js, err := e.wd.W.W.ExportWallet(e.ids["b"], e.pass["b"])
 			if err != nil {
 				return fmt.Errorf("harness: export b: %v", err)
